@@ -11,7 +11,13 @@ PROP = {
              "length + free for every (length mod 4) x free in 0..9, and into the cell capacity 1023 with lengths 1015..1023 (the harness "
              "argument is the number of free bits; the model side runs the buffer-level ToFiftHex of C06 on that state); MsgAddress "
              "extern / var holding such writer-built strings with 0..4 free bits; cells written by WriteBytes/WriteUint with 1010..1023 "
-             "bits are marshalled directly and via their re-parsed copy; MsgAddress: none, extern of 0 (known finding), 1,3,4,8,255,256,257,511 bits, std with workchains -128,-127,-1,0,1,"
+             "bits are marshalled directly and via their re-parsed copy; bit strings as ReadBits returns them (family argument (pre tail): the value is read out of pre ++ value ++ tail after "
+             "ReadBits(|pre|)), for read positions 0,8,16,280 (aligned: the last byte keeps source bits behind the length) and 1,3,4,7,9,12, "
+             "lengths covering every length mod 4 up to 511, tails zero / all ones / random, alone, inside addr_extern / addr_var and under "
+             "Maybe; the model side runs C06's buffer-level ReadBits and ToFiftHex on the same state; ext_out_msg_info headers decoded by "
+             "tlb.Unmarshal (external destination at bit 280, created_lt with its top bits set): JSON of Dest/Src equals the JSON of the "
+             "written address and parses back (implementation oracle); every document is also decoded into a receiver that already holds "
+             "the previous value of that type (oracle receiver-reuse-<family>: same result as into a fresh receiver); MsgAddress: none, extern of 0 (known finding), 1,3,4,8,255,256,257,511 bits, std with workchains -128,-127,-1,0,1,"
              "126,127, var with lengths 0,1,4,7,8,252,255,256,257,260,511 x workchains -2^31..2^31-1 incl. -129,-128,127,128 (the 256-bit "
              "/ 8-bit-workchain look-alike is generated, compared with the model, and excluded from the oracle as the property says), each "
              "with no anycast / depth 1..30 / extreme uint32 anycast; ton.AccountID with int32 workchains; cells built from random DAGs "
@@ -20,7 +26,12 @@ PROP = {
              "distinct cells on the implementation side only (thorough); for every cell value the implementation-side oracle "
              "json.Unmarshal(json.Marshal(cell)) succeeds with the same representation hash is evaluated on the cell as built, and the "
              "model side checks on the case's bytes the C01 hypothesis of the cell theorem (they parse back to exactly one root) instead "
-             "of assuming it; hand-built hex BOC documents from the header grammar (independent serialiser refSerialize of dag.go): "
+             "of assuming it; trees with a path of 1000, 1022..1027 cells (chain and comb): Hash succeeds iff json.Marshal succeeds, and the ones with a "
+             "JSON form go through the round trip and the model; trees built in memory from distinct but equal cells vs shared pointers "
+             "(same text); encoder-only forms (AddressWithWorkchain, CurrencyCollection, Either, EitherRef) must be valid JSON; payload "
+             "envelopes (InMsgBody, ExtOutMsgBody, JettonPayload, NFTPayload) with multi-byte / control-character text and 24 hand-written "
+             "envelopes pairing known operation names with foreign, null or missing bodies: never a panic; "
+             "hand-built hex BOC documents from the header grammar (independent serialiser refSerialize of dag.go): "
              "0/1/2/3/255/256/257 cells x root lists {none, [0], [0,0], [n] out of range, [0,n], [0,n-1], [n-1], three roots} x 11 header "
              "variants (generic/lean/lean+crc magic, index, crc32, cache bits, wider size / offset fields, stored hashes) and the named "
              "zero-root documents b5ee9c72010100000000 and b5ee9c720101010000020000, each through json.Unmarshal and the direct method of "
@@ -45,9 +56,14 @@ PROP = {
                     "-2^(w-1) <= z < 2^(w-1)), every integer for the big.Int types, every byte array, all of uint64 / int64 for Grams / "
                     "SignedCoins, every uint32 Magic, every bit list (no length bound) and every buffer state of a writer-built bit string "
                     "(the printed text is ToFiftHex on the buffer as the Go code computes it with Copy/Grow/tag, proved to depend only on the "
-                    "written bits: not on the capacity nor on the buffer content past the length), every well-formed MsgAddress of each of the four "
+                    "written bits: not on the capacity nor on the buffer content past the length; C20_read_bitstring_roundtrip: the string "
+                    "ReadBits returns, stale source bits behind its length included, prints as the bits read and parses back; the design "
+                    "that rounds the length up instead of writing the zero padding is refuted in Proofs/C20History.v: 10110 read before "
+                    "111 prints B7_ = 1011011), every well-formed MsgAddress of each of the four "
                     "kinds with or without anycast except the two named ambiguities, every int32-workchain AccountID, every optional value "
-                    "over such a family, and cells relative to the C01 serialiser round trip: parse (print v) = Ok v; the printed text is a "
+                    "over such a family, and cells relative to the C01 serialiser round trip (C20_cell_has_json makes the second C01 obligation explicit: the "
+                    "serialiser is total on the domain, checked by the harness at depth 1023/1024 and 255..257 / 65535..65537 cells): "
+                    "parse (print v) = Ok v; the printed text is a "
                     "JSON number or a quoted string of characters that need no escape, is accepted by the (ported) encoding/json scanner, "
                     "is its own value item and is never the literal null, hence json.Unmarshal(json.Marshal(v)) = v; documents the scanner "
                     "rejects are errors for every type; and no parser returns Panic on ANY byte string (the Go slice expressions str[2:] and "
@@ -77,7 +93,7 @@ META = {
              "number or an escape-free string accepted by the encoding/json scanner and parses back to the same value, both through the "
              "method and through json.Unmarshal; syntactically invalid documents are errors; no parser panics on any input. The shapes "
              "of all 176 method pairs of tlb/integers.go, Grams and SignedCoins are re-extracted from today's source and checked against the model. The extracted "
-             "model reproduces json.Marshal / json.Unmarshal / UnmarshalJSON of the real code exactly on ~23k (quick) / ~389k (thorough) "
+             "model reproduces json.Marshal / json.Unmarshal / UnmarshalJSON of the real code exactly on ~24k (quick) / ~400k (thorough) "
              "structured, mutated and hand-written documents."),
     'design_ref': 'DESIGN.md §6 C20, §7 F8 F17',
     'note': ("Repair: F8 (SignedCoins.UnmarshalJSON used ParseUint, negatives failed). Known finding kept: F17 addr-extern-empty. "
